@@ -6,7 +6,7 @@
    The per-protocol send->receive round trips are theorems about the packet models of Model.v
    (sender's datagram = what the node passes to sendto; receiver = node with one registered handler). *)
 From OlaBase Require Import Bytes.
-From C07 Require Import Gen Model ModelNet2 ModelStream ModelMulti ModelHist ModelExt ModelMerge ModelSrc ListLemmas RleProofs RleMore NetProofs NetProofs2 StreamProofs MultiProofs HistProofs ExtProofs StreamProofs2 ExtProofs2 MergeProofs SrcProofs.
+From C07 Require Import Gen Model ModelNet2 ModelStream ModelMulti ModelHist ModelExt ModelMerge ModelSrc ModelEsp ListLemmas RleProofs RleMore NetProofs NetProofs2 StreamProofs MultiProofs HistProofs ExtProofs StreamProofs2 ExtProofs2 MergeProofs SrcProofs EspProofs.
 Local Open Scope N_scope.
 
 (* the constants the statements below spell out as literals *)
@@ -361,6 +361,36 @@ Theorem c07_e131_sources_nodup : forall st now p,
 Proof. intros. split; [constructor|apply e131_track_nodup]. Qed.
 Print Assumptions c07_e131_sources_nodup.
 
+(* ===== wave 7 ===== *)
+(* ESP Net run-length format (plugins/espnet/RunLengthDecoder.cpp; repeat block 0xFE count value,
+   escape 0xFD value, literals).  OLA only decodes it; esp_encode is a reference encoder of the format
+   (maximal runs; runs of 3..512 as one to three repeat blocks of at most 255, shorter runs and single
+   slots as literals, the bytes 0xFD / 0xFE escaped when literal and NOT escaped as the value of a
+   repeat block).  For EVERY frame of 0-512 slots - values 0xFD and 0xFE in runs and as literals
+   included - decoding the encoding terminates and gives the frame back: over an allocated receiver
+   buffer exactly the frame (Decode resets it first), over a new one the frame followed by the
+   blackout zeros. *)
+Theorem c07_espnet_rle_lossless : forall f b,
+  len f <= 512 ->
+  exists b', esp_decode (esp_encode f) b = Some b' /\
+             materialise b' = f ++ drop (len f) (materialise (buf_reset0 b)) /\
+             (f <> [] -> b' <> None).
+Proof. exact esp_lossless. Qed.
+Print Assumptions c07_espnet_rle_lossless.
+
+(* ... and the same through EspNetNode::HandleData for a DATA_RLE datagram that holds the encoding *)
+Theorem c07_espnet_rle_roundtrip : forall u f old,
+  u < 256 -> len f <= 512 -> len (esp_encode f) <= 512 ->
+  exists b', espnet_handle_rle (espnet_build_rle u (esp_encode f)) u old = E2Handled b' /\
+             materialise b' = f ++ drop (len f) (materialise (buf_reset0 old)) /\ (f <> [] -> b' <> None).
+Proof. exact espnet_rle_roundtrip. Qed.
+Print Assumptions c07_espnet_rle_roundtrip.
+
+Theorem c07_consts3 : (ES_RLE_ESCAPE, ES_RLE_REPEAT, ES_DATA_RLE, AN_MERGE_TIMEOUT, AN_MAX_MERGE_SOURCES,
+                       E131_MAX_MERGE_SOURCES) = (253, 254, 4, 10, 2, 6).
+Proof. reflexivity. Qed.
+Print Assumptions c07_consts3.
+
 (* ---- non-vacuity and the pre-fix failures as concrete evaluations of the (fixed) model *)
 Definition ramp (n : nat) : list N := map (fun i => N.of_nat ((i * 7 + 3) mod 256)) (seq 0 n).
 (* 128 distinct slots: the unfixed encoder emitted the count byte 0x80 here *)
@@ -455,4 +485,10 @@ Example ex_e131_takeover :
   e131_track s1 300 (pk 2 100 0 [1; 2]) = (s1, false) /\
   snd (e131_track s1 2701 (pk 2 100 0 [1; 2])) = true /\
   r_hbuf (fst (e131_track s1 2701 (pk 2 100 0 [1; 2]))) = Some [1; 2].
+Proof. vm_compute. repeat split; reflexivity. Qed.
+(* a run of the escape byte is a repeat block whose value byte is NOT escaped; literals are *)
+Example ex_esp_rle :
+  esp_encode [253; 253; 253; 9; 254; 254] = [254; 3; 253; 9; 253; 254; 253; 254] /\
+  esp_decode [254; 3; 253; 9; 253; 254; 253; 254] (Some [1]) = Some (Some [253; 253; 253; 9; 254; 254]) /\
+  esp_decode (esp_encode (repeat 254 512)) (Some []) = Some (Some (repeat 254 512)).
 Proof. vm_compute. repeat split; reflexivity. Qed.
